@@ -235,6 +235,10 @@ pub struct BatonTrace {
     /// recorded schedules (thread id per decision) for replay; empty = draw from the PRNG
     pub schedule_cold: Vec<u8>,
     pub schedule_shared: Vec<u8>,
+    /// the shared instance of phase 2 is *re-created from a storage location* that a first instance populated, flushed and
+    /// dropped (so whatever the instance fills lazily is cold when the callers arrive); the sequential reference is taken
+    /// on the first instance, before it is dropped
+    pub reload: bool,
 }
 
 impl BatonTrace {
@@ -248,6 +252,7 @@ impl BatonTrace {
             "shared":scripts(&self.shared),
             "schedule_cold":self.schedule_cold,
             "schedule_shared":self.schedule_shared,
+            "reload":self.reload,
         })
     }
     pub fn from_json(v: &Value) -> Option<BatonTrace> {
@@ -266,6 +271,7 @@ impl BatonTrace {
             shared: scripts("shared"),
             schedule_cold: sched("schedule_cold"),
             schedule_shared: sched("schedule_shared"),
+            reload: v["reload"].as_bool().unwrap_or(false),
         })
     }
     pub fn digest(&self) -> u64 {
@@ -683,7 +689,16 @@ pub fn run_baton(trace: &BatonTrace, prop: &str, cold_process: bool) -> BatonOut
     }
     // ---- shared instance and messages
     let depth = 20;
-    let rln = match guarded(|| RLN::new(depth, Cursor::new("{}".to_string()))) {
+    let reload_dir = std::env::temp_dir().join(format!("e5-reload-{}-{}", std::process::id(), trace.seed));
+    let reload_cfg = json!({"tree_config": {"path": reload_dir.join("tree").to_str().unwrap(), "temporary": false, "cache_capacity": 1u64 << 20, "flush_every_ms": Value::Null, "mode": "HighThroughput", "use_compression": false}}).to_string();
+    let cfg = if trace.reload {
+        let _ = std::fs::remove_dir_all(&reload_dir);
+        let _ = std::fs::create_dir_all(&reload_dir);
+        reload_cfg.clone()
+    } else {
+        "{}".to_string()
+    };
+    let rln = match guarded(|| RLN::new(depth, Cursor::new(cfg.clone()))) {
         Ok(Ok(r)) => r,
         other => {
             o.harness_error = Some(format!("RLN::new: {:?}", other.map(|x| x.map(|_| ()).map_err(|e| e.to_string()))));
@@ -720,7 +735,34 @@ pub fn run_baton(trace: &BatonTrace, prop: &str, cold_process: bool) -> BatonOut
             }
         }
     }
-    let sh = Arc::new(Shared { rln, msgs, depth });
+    let mut want_pre: Vec<Vec<RResult>> = Vec::new();
+    let sh = if trace.reload {
+        // the sequential reference: every scripted call once, on the first instance
+        let first = Shared { rln, msgs, depth };
+        for script in &trace.shared {
+            want_pre.push(script.iter().map(|c| do_call(c, Some(&first))).collect());
+        }
+        let Shared { rln: mut first_rln, msgs, .. } = first;
+        if let Err(e) = first_rln.flush() {
+            o.harness_error = Some(format!("flush before reload: {e}"));
+            o.counters = counters;
+            return o;
+        }
+        drop(first_rln);
+        crate::e1::wait_unlocked(&reload_dir.join("tree"));
+        let second = match guarded(|| RLN::new(depth, Cursor::new(reload_cfg.clone()))) {
+            Ok(Ok(r)) => r,
+            other => {
+                o.harness_error = Some(format!("RLN::new on the populated location: {:?}", other.map(|x| x.map(|_| ()).map_err(|e| e.to_string()))));
+                o.counters = counters;
+                return o;
+            }
+        };
+        counters.inc("reach.shared_instance_reloaded_from_storage");
+        Arc::new(Shared { rln: second, msgs, depth })
+    } else {
+        Arc::new(Shared { rln, msgs, depth })
+    };
     // ---- phase 2: shared instance
     let p2 = run_phase(&trace.shared, Some(sh.clone()), trace.seed ^ 0x22, trace.mode, &trace.schedule_shared, 180);
     out_trace.schedule_shared = p2.schedule.clone();
@@ -738,7 +780,8 @@ pub fn run_baton(trace: &BatonTrace, prop: &str, cold_process: bool) -> BatonOut
     }
     for (t, script) in trace.shared.iter().enumerate() {
         for (k, c) in script.iter().enumerate() {
-            let want = do_call(c, Some(&sh));
+            let after = do_call(c, Some(&sh));
+            let want = if trace.reload { want_pre[t][k].clone() } else { after.clone() };
             let got = p2.results.get(t).and_then(|r| r.get(k)).cloned().unwrap_or(RResult::None);
             counters.inc("oracle_evaluations");
             counters.inc(&format!("call.{}", c.to_json()["c"].as_str().unwrap_or("?")));
@@ -756,6 +799,11 @@ pub fn run_baton(trace: &BatonTrace, prop: &str, cold_process: bool) -> BatonOut
                 o.counters = counters;
                 return o;
             }
+            if !(prop == "C14" && !keygen_call(c)) && !same(&want, &after) {
+                o.violation = viol("differs_from_sequential", format!("thread {t} call {k} {}: the same call made sequentially after the concurrent phase returns {:?}, before it {:?}", c.to_json(), short(&after), short(&want)));
+                o.counters = counters;
+                return o;
+            }
             // honest messages must be accepted (the sequential reference alone would accept "both wrong")
             if let (RCall::VerifyRln { alter: 0, .. }, RResult::Verdict(v)) = (c, &got) {
                 if *v != Some(true) {
@@ -765,6 +813,10 @@ pub fn run_baton(trace: &BatonTrace, prop: &str, cold_process: bool) -> BatonOut
                 }
             }
         }
+    }
+    if trace.reload {
+        drop(sh);
+        let _ = std::fs::remove_dir_all(&reload_dir);
     }
     let mut f = Fnv::new();
     f.add(&out_trace.schedule_cold);
@@ -868,7 +920,30 @@ pub fn generate_baton(seed: u64, thorough: bool, keygen_heavy: bool) -> BatonTra
         }
         shared.push(s);
     }
-    BatonTrace { seed, mode, threads, cold, leaves, publishes, shared, schedule_cold: Vec::new(), schedule_shared: Vec::new() }
+    // every other scenario shares an instance re-created from storage; there every thread starts with the same state-dependent
+    // read-only queries (the first callers of whatever that instance fills lazily arrive together)
+    let mut r2 = Prng::new(seed ^ 0x5e10ad);
+    let reload = cfg!(feature = "pm") && !keygen_heavy && r2.chance(1, 2);
+    if reload {
+        let first_leaf = leaves[0].0;
+        for sc in shared.iter_mut() {
+            let mut head = vec![RCall::GetMeta];
+            for _ in 0..(1 + r2.usize_below(2)) {
+                head.push(match r2.below(5) {
+                    0 => RCall::GetRoot,
+                    1 => RCall::GetLeaf { i: first_leaf },
+                    2 => RCall::EmptyLeaves,
+                    3 => RCall::GetProof { i: first_leaf },
+                    _ => RCall::GetSubtreeRoot { level: 1 + r2.usize_below(20), i: first_leaf },
+                });
+            }
+            let k = r2.usize_below(head.len());
+            head.swap(0, k);
+            head.extend(sc.drain(..));
+            *sc = head;
+        }
+    }
+    BatonTrace { seed, mode, threads, cold, leaves, publishes, shared, schedule_cold: Vec::new(), schedule_shared: Vec::new(), reload }
 }
 
 // ------------------------------------------------------------------------------------------------
@@ -1067,6 +1142,44 @@ pub fn run_clock(scratch: &std::path::Path, release_ms: u64, kind: u8, via_rln: 
 // (a) transcript
 // ------------------------------------------------------------------------------------------------
 
+/// The documented derivation, written out independently of zerokit's own code: ChaCha20 keyed with Keccak-256(seed), field
+/// elements drawn with arkworks' uniform sampler, Poseidon for the relations (proto::h).
+pub fn reference_seeded_identity(seed: &[u8], extended: bool) -> Vec<u8> {
+    use ark_std::UniformRand;
+    use rand_chacha::rand_core::SeedableRng;
+    use tiny_keccak::{Hasher, Keccak};
+    let mut key = [0u8; 32];
+    let mut k = Keccak::v256();
+    k.update(seed);
+    k.finalize(&mut key);
+    let mut rng = rand_chacha::ChaCha20Rng::from_seed(key);
+    let mut out = Vec::new();
+    if extended {
+        let t = Fr::rand(&mut rng);
+        let n = Fr::rand(&mut rng);
+        let s = h(&[t, n]);
+        let c = h(&[s]);
+        for f in [t, n, s, c] {
+            out.extend_from_slice(&fr_to_le32(&f));
+        }
+    } else {
+        let s = Fr::rand(&mut rng);
+        let c = h(&[s]);
+        out.extend_from_slice(&fr_to_le32(&s));
+        out.extend_from_slice(&fr_to_le32(&c));
+    }
+    out
+}
+
+fn keccak256(b: &[u8]) -> Vec<u8> {
+    use tiny_keccak::{Hasher, Keccak};
+    let mut key = [0u8; 32];
+    let mut k = Keccak::v256();
+    k.update(b);
+    k.finalize(&mut key);
+    key.to_vec()
+}
+
 pub fn transcript(seed: u64) -> Vec<(String, String)> {
     use zerokit_utils::ZerokitMerkleTree;
     let mut t: Vec<(String, String)> = Vec::new();
@@ -1088,6 +1201,28 @@ pub fn transcript(seed: u64) -> Vec<(String, String)> {
     *twin.last_mut().unwrap() ^= 1;
     seeds.push(twin);
     seeds.push(b"A seed phrase example".to_vec());
+    // lengths around the 32-byte key size and the Keccak rate, and for a few seeds T the 32-byte seed Keccak-256(T)
+    // (what T is turned into inside the derivation: a distinct seed, so a distinct identity)
+    for n in [31usize, 33, 64, 135, 136, 137] {
+        seeds.push(rng.bytes(n));
+    }
+    for k in [0usize, 2, 4, 9] {
+        let hk = keccak256(&seeds[k]);
+        seeds.push(hk);
+    }
+    for sd in &seeds {
+        let rp = reference_seeded_identity(sd, false);
+        let r4 = reference_seeded_identity(sd, true);
+        let (a, b) = rln::protocol::seeded_keygen(sd);
+        let (t4, n4, s4, c4) = rln::protocol::extended_seeded_keygen(sd);
+        let mut got = fr_to_le32(&a).to_vec();
+        got.extend_from_slice(&fr_to_le32(&b));
+        let mut got4 = Vec::new();
+        for f in [t4, n4, s4, c4] {
+            got4.extend_from_slice(&fr_to_le32(&f));
+        }
+        t.push((format!("seeded_reference {} len={}", hex(&sd[..sd.len().min(8)]), sd.len()), format!("matches_reference={}", got == rp && got4 == r4)));
+    }
     for sd in &seeds {
         let (a, b) = rln::protocol::seeded_keygen(sd);
         let mut p = fr_to_le32(&a).to_vec();
